@@ -19,6 +19,8 @@ Canonical values: every cell is an integer.  float64 cells are the IEEE bit patt
 unsigned 64 bit integer (so NaN payloads such as UNKNOWN_TIME are compared exactly), int8
 cells are 0..255, strings are their UTF-8 bytes.
 """
+import collections.abc as collections_abc
+from itertools import islice as itertools_islice
 import hashlib
 import struct
 import types
@@ -1248,6 +1250,18 @@ def find_arrays(obj, path="", depth=0, seen=None):
             yield from find_arrays(v, "%s[%d]" % (path, i), depth + 1, seen)
     elif type(obj).__module__.startswith("tskit") and not isinstance(obj, type):
         names = list(getattr(obj, "__slots__", [])) + list(getattr(obj, "__dict__", {}).keys())
+        if type(obj).__name__ not in ("TreeSequence", "Tree", "Variant", "TableCollection"):
+            # row objects (Node, Site, Mutation, Individual, ...), IdentitySegmentList, tables:
+            # every public property as well
+            import inspect
+            names += [n for n, o in inspect.getmembers(type(obj)) if isinstance(o, property) and not n.startswith("_")]
+        if isinstance(obj, (collections_abc.Mapping,)):
+            try:
+                items = list(itertools_islice(obj.items(), 20))
+            except Exception:
+                items = []
+            for k2, v2 in items:
+                yield from find_arrays(v2, "%s[%r]" % (path, k2), depth + 1, seen)
         for nme in names[:40]:
             if nme.startswith("__") or nme in ("_ll_tree_sequence", "_ll_tree", "tree_sequence", "_tree_sequence"):
                 continue
@@ -1374,7 +1388,38 @@ def ts_calls(ts, rng):
     add("str", lambda: str(ts))
     add("as_vcf?", lambda: ts.as_vcf() if hasattr(ts, "as_vcf") else None)
     add("dump_text", lambda: ts.dump_text())
+    add("ibd_segments(pairs)", lambda: ts.ibd_segments(store_segments=True, store_pairs=True))
+    add("ibd_segments(between)", lambda: ts.ibd_segments(between=[smp[:1], smp[1:]], store_pairs=True, store_segments=True)
+        if len(smp) >= 2 else None)
+    calls += discovered_methods("ts.", ts, {"dump", "draw_svg", "draw"})
     return calls
+
+
+NAVIGATION = {"next", "prev", "first", "last", "clear", "seek", "seek_index", "decode"}
+
+
+def discovered_methods(prefix, obj, skip):
+    """Every public method of the class that can be called without arguments."""
+    import inspect
+    out = []
+    for nme, fn in inspect.getmembers(type(obj), inspect.isfunction):
+        if nme.startswith("_") or nme in skip:
+            continue
+        try:
+            params = list(inspect.signature(fn).parameters.values())[1:]
+        except (TypeError, ValueError):
+            continue
+        if any(p_.default is inspect.Parameter.empty and p_.kind in (p_.POSITIONAL_ONLY, p_.POSITIONAL_OR_KEYWORD, p_.KEYWORD_ONLY)
+               for p_ in params):
+            continue
+
+        def call(n=nme):
+            r = getattr(obj, n)()
+            if inspect.isgenerator(r) or isinstance(r, (map, filter, zip)):
+                r = list(itertools_islice(r, 50))
+            return r
+        out.append((prefix + nme + "()*", call, nme not in NAVIGATION))
+    return out
 
 
 def _mutate_tables(tc):
@@ -1437,6 +1482,7 @@ def tree_calls(ts, tree, rng):
         add("mrca", lambda u=rng.randrange(N), v=rng.randrange(N): tree.mrca(u, v))
         add("children", lambda u=rng.randrange(N): tree.children(u))
         add("leaves", lambda u=rng.randrange(N): list(tree.leaves(u)))
+    calls += discovered_methods("tree.", tree, {"draw_svg", "draw"})
     return calls
 
 
@@ -1457,6 +1503,7 @@ def variant_calls(ts, var, rng):
     add("counts()", lambda: dict(var.counts()))
     add("frequencies()", lambda: dict(var.frequencies()))
     add("states()", lambda: var.states())
+    calls += discovered_methods("variant.", var, set())
     return calls
 
 
@@ -1558,6 +1605,97 @@ def _callkey(nme):
     return re.sub(r"[^A-Za-z0-9_.]+", "_", str(nme))[:40]
 
 
-FAMILIES = [TableOps, Hazard, Pack, Immut]
+class Accessors(Family):
+    """The regenerated accessor table (translator/facts_c13.accessor_table, = c13_accessors in
+    Gen/Generated.v, about which coq/theories/C13/Accessors.v proves that no entry is a
+    writeable view) against the live objects: a `view` must be a non-writeable array whose
+    base is the low-level object, a `copy` must own its data."""
+    name = "accessors"
+    workers = 4
+
+    def generate(self, rng, tier):
+        from harness import gen_ts
+        for _ in range(12 if tier == "quick" else 150):
+            yield {"desc": gen_ts.random_desc(rng, max_nodes=rng.choice([3, 6, 8]), migrations=rng.random() < 0.5)}
+
+    @staticmethod
+    def table():
+        import importlib.util
+        import os
+        from harness import common
+        spec = importlib.util.spec_from_file_location(
+            "facts_c13", os.path.join(common.VERIF, "translator", "facts_c13.py"))
+        mod = importlib.util.module_from_spec(spec)
+        spec.loader.exec_module(mod)
+
+        def read(rel):
+            return open(os.path.join(common.REPO, rel)).read()
+
+        def die(msg):
+            raise RuntimeError(msg)
+        rows, readonly = mod.accessor_table(read, die)
+        return rows, readonly, mod.cached_arrays(read, die)
+
+    def observe(self, case):
+        import warnings
+        import numpy as np
+        from harness import gen_ts
+        warnings.simplefilter("ignore")
+        tc = gen_ts.build_tables(case["desc"])
+        try:
+            ts = tc.tree_sequence()
+        except Exception as e:
+            return {"skipped": type(e).__name__}
+        rows, readonly, cached = self.table()
+        tree = ts.first()
+        out = []
+        for nme, kind in rows:
+            cls, attr = nme.split(".")
+            ll = ts._ll_tree_sequence if cls == "TreeSequence" else tree._ll_tree
+            try:
+                a = getattr(ll, attr)
+            except Exception as e:
+                out.append([nme, kind, "raised " + type(e).__name__, None, None])
+                continue
+            if not isinstance(a, np.ndarray):
+                out.append([nme, kind, "not-an-array", None, None])
+                continue
+            out.append([nme, kind, "array", bool(a.flags.writeable), a.base is ll])
+        for nme, ro in cached:
+            prop = nme[1:]
+            try:
+                getattr(ts, prop)
+            except Exception:
+                pass
+            a = getattr(ts, nme)
+            out.append(["TreeSequence." + nme, "cached-ro" if ro else "cached-rw", "array" if a is not None else "unset",
+                        None if a is None else bool(a.flags.writeable), None])
+        return {"rows": out, "view_readonly": readonly}
+
+    def oracle(self, case, obs):
+        if "skipped" in obs:
+            return []
+        out = []
+        for nme, kind, what, writeable, based in obs["rows"]:
+            if what != "array":
+                if what == "not-an-array":
+                    out.append(("accessor-table-%s-not-an-array" % _callkey(nme), "%s: table says %s" % (nme, kind)))
+                continue
+            if writeable:
+                out.append(("accessor-writeable-%s" % _callkey(nme), "%s hands out a writeable array (table: %s)" % (nme, kind)))
+            if kind == "view" and not based:
+                out.append(("accessor-table-%s-view-without-base" % _callkey(nme), "%s: table says view of the object" % nme))
+            if kind == "copy" and based:
+                out.append(("accessor-table-%s-copy-with-base" % _callkey(nme), "%s: table says copy" % nme))
+        return out
+
+    def nontrivial(self, case, obs):
+        return "skipped" not in obs
+
+    def describe(self, case, obs):
+        return {"entries": len(obs.get("rows", []))}
+
+
+FAMILIES = [TableOps, Hazard, Pack, Immut, Accessors]
 
 NOT_COVERED = []
